@@ -29,7 +29,7 @@ ids 300..309 are multipath keys with 2 derivation paths, 310..319 with 3.
   C sortedmulti-new <ctx> <k> <k1,k2,..> <entry>  ok | ERR   (`Threshold::<Pk, 20>::new` + `*::new_sortedmulti`)
   C keyonly <kind> <key> <entry>          ok | ERR   key-only descriptors pk/pkh/wpkh/sh_wpkh/tr
   J keyok <entry> <kind> <key> <outcome>  ok iff (<outcome> = ok ⇔ the context of <kind> permits the key's
-                                          kind) and the entry point did not panic
+                                          kind); a PANIC outcome counts as refused
   C decodemax <ctx> <ast> <tag>           ok | ERR   decode_with_validation_params(encode(<ast>), MAX)
   C traccept <entry> <tree>               ok | ERR   `{a,{b,c}}` tree of leaf ASTs through
                                           tr_new / tr_str / desc
@@ -151,7 +151,8 @@ def switchDefect (F : Spec.Facts) (ctx : Ctx) (p : ValidationParams) (ms : Ms) :
   | "multi_a" => some (Spec.hasDefect_multiA ms)
   | "raw_pkh" => some (Spec.hasDefect_rawPkh ms)
   | "malleability" => some (Spec.hasDefect_malleable (Spec.isTap ctx) ms)
-  | "sigless_branch" => some (Spec.hasDefect_sigless (Spec.isTap ctx) ms)
+  | "sigless_branch" => some (Spec.hasDefect_siglessSem ms)
+  | "sigless_branch_type" => some (Spec.hasDefect_sigless (Spec.isTap ctx) ms)
   | "non_b" => some (Spec.hasDefect_nonB (Spec.isTap ctx) ms)
   | "mixed_time_locks" => some (Spec.hasDefect_mixedTimeLocks ms)
   | "uncompressed_keys" => some (Spec.hasUncompressedKey F ms)
@@ -195,8 +196,9 @@ def opsValidate (t : Tables) (kind op : String) (args : List String) : Option St
   | "J", "keyok", [_entry, d, k, outcome] => do
     let d ← parseKeyDesc d; let k ← k.toNat?
     let allowed := Spec.keyAllowed (factsOf t d.ctx) d.ctx k
-    pure (if outcome == "PANIC" then "bad:panic-instead-of-error"
-          else if outcome == "ok" && !allowed then "bad:key-kind-accepted"
+    -- a panic is not an acceptance: for C12 it counts as "refused" (the harness records it as
+    -- an observation, not as a failure)
+    pure (if outcome == "ok" && !allowed then "bad:key-kind-accepted"
           else if outcome != "ok" && allowed then "bad:permitted-key-rejected" else "ok")
   | "C", "decodemax", [ctx, ast, _tag] => do
     let ctx ← parseCtx ctx; let ms ← parseAst ast
